@@ -58,6 +58,34 @@ pub fn run_oligo(inp: &str, out: &str, k: usize, norm: bool, path: WPath, thread
     }
 }
 
+/// the same through a computer object that has been used before with other settings (another delimiter, header,
+/// normalisation and writer, into the same output path): nothing of the first use may survive in the second
+pub fn run_oligo_reused(inp: &str, out: &str, k: usize, norm: bool, path: WPath, threads: usize, delim: &str, header: bool, memory: Option<usize>) -> Result<(), String> {
+    let mut c = OligoComputer::new(inp.to_string(), out.to_string(), k);
+    c.set_threads(1 + threads % 3);
+    c.set_norm(!norm);
+    c.set_delim(if delim == ";" { "#".to_string() } else { ";".to_string() });
+    c.set_header(!header);
+    // (the memory-mapped writer exists for normalised output only)
+    match path {
+        WPath::Auto => c.vectorise(),
+        WPath::Batch if !norm => c.verif_vectorise_mmap(),
+        _ => c.verif_vectorise_batch(),
+    }?;
+    c.set_threads(threads);
+    c.set_norm(norm);
+    c.set_delim(delim.to_string());
+    c.set_header(header);
+    if let Some(m) = memory {
+        c.set_max_memory(m);
+    }
+    match path {
+        WPath::Auto => c.vectorise(),
+        WPath::Mmap => c.verif_vectorise_mmap(),
+        WPath::Batch => c.verif_vectorise_batch(),
+    }
+}
+
 /// "0.333333" -> 333333 ; "1.000000" -> 1000000 ; "3" -> 3 (raw count). None if not of that shape.
 pub fn parse_val(tok: &str, norm: bool) -> Option<i64> {
     if norm {
